@@ -159,3 +159,59 @@ class Report:
         print("%s: %d rule instances, %d ok, %d known, %d unresolved(non-mandatory), %d violations  [%0.1fs]" % (
             self.prop, len(self.items), n_ok, len(known_hit), n_unres, len(violations), time.time() - self.t0))
         return 1 if violations else 0
+
+
+class Filtered:
+    """A view of a Report that keeps only the rule instances selected by pred(rule, key): lets one property reuse a
+    slice of another property's rules without inheriting the rest."""
+
+    def __init__(self, rep, pred, floors=False):
+        self.rep = rep
+        self.pred = pred
+        self.floors = floors
+        self.notes = rep.notes
+        self.extra = {}
+        self.analysed = {}
+        self._rules = {}
+
+    def rule(self, rid, text):
+        self._rules[rid] = text
+
+    def _use(self, rule):
+        if rule in self._rules and rule not in self.rep.rules:
+            self.rep.rule(rule, self._rules[rule])
+
+    def ok(self, rule, key, where="", detail=""):
+        if self.pred(rule, key):
+            self._use(rule)
+            self.rep.ok(rule, key, where, detail)
+
+    def violation(self, rule, key, where="", detail=""):
+        if self.pred(rule, key) or (self.floors and key.startswith("anchor-lost:")):
+            self._use(rule)
+            self.rep.violation(rule, key, where, detail)
+
+    def unresolved(self, rule, key, where="", detail="", mandatory=True):
+        if self.pred(rule, key):
+            self._use(rule)
+            self.rep.unresolved(rule, key, where, detail, mandatory)
+
+    def check(self, cond, rule, key, where="", detail="", fail_detail=None):
+        (self.ok if cond else self.violation)(rule, key, where, detail if cond else (fail_detail or detail))
+        return cond
+
+    def floor(self, rule, found, expected, what):
+        if self.floors:
+            self._use(rule)
+            self.rep.floor(rule, found, expected, what)
+
+    def control(self, rule, fired, what):
+        if self.floors:
+            self._use(rule)
+            self.rep.control(rule, fired, what)
+
+    def trust(self, text):
+        pass
+
+    def assume(self, text):
+        pass
